@@ -69,6 +69,11 @@ CLAIMED = {
          "(union wrapping with full names, ISO-8859-1 bytes, symbols, objects/arrays; numbers by value); json_reader's result on that text is compared "
          "with Norm (= what the binary decode returns); defaulted top-level keys are deleted from the text and must come back as the schema defaults.",
          "TLA+ spec (AvroJson, AvroValue!Norm) + TLC trace validation", "3/C15"),
+ "C19": ("V: generated dependency graphs are split into one file per named type (qualified and namespace-relative references, repeated use, several "
+         "namespaces), optionally with one file removed; TLC parses the top schema against the repository with AvroSchema!ParseRepo (definition inlined "
+         "at first use) and compares the canonical text, the re-parsed result and the bytes of data written under load_schema's result, the same for "
+         "load_schema_ordered, and the type named by the error for a missing file.",
+         "TLA+ spec (AvroSchema!ParseRepo, AvroCanon) + TLC trace validation", "3/C19"),
 }
 checks = []
 for p in props:
